@@ -154,6 +154,14 @@ def run(ctx):
             for bracket in (False, True):
                 cases.append({"fn": "cli", "arglist": ["--return-angles", "--poly=" + fmt_list(poly, bracket, 0), "poly2angles"], "cmd": "poly2angles",
                               "mode": "--return-angles", "bracket": bracket, "so": "Wx", "tol": 0.1, "exp_args": poly, "npseed": 5, "timeout": 300})
+        # lists with a single entry in the bracketed form ("[6]" has no blank), and a relu request whose delta is exactly 0
+        for bracket in (True, False):
+            cases.append({"fn": "cli", "arglist": ["--return-angles", "--seqargs=" + fmt_list([6], bracket, 0), "fpsearch"], "cmd": "fpsearch", "mode": "--return-angles",
+                          "bracket": bracket, "so": "Wx", "tol": 0.1, "exp_args": [6], "npseed": 2, "timeout": 300})
+            cases.append({"fn": "cli", "arglist": ["--output-json", "--seqname", "erf_step", "--seqargs=" + fmt_list([23], bracket, 0), "angles"], "cmd": "angles",
+                          "mode": "--output-json", "bracket": bracket, "so": "Wx", "tol": 0.1, "exp_args": [23], "exp_classes": ["erf_step"], "npseed": 2, "timeout": 300})
+            cases.append({"fn": "cli", "arglist": ["--return-angles", "--tolerance=0.01", "--seqargs=" + fmt_list([8, 0, 5], bracket, 0), "relu"], "cmd": "relu",
+                          "mode": "--return-angles", "bracket": bracket, "so": "Wx", "tol": 0.01, "exp_args": [8, 0, 5], "npseed": 2, "timeout": 300})
         for cmd in UNKNOWN:
             cases.append({"fn": "cli", "arglist": ["--return-angles", "--poly=-1,0,2", cmd], "cmd": cmd, "mode": "--return-angles", "bracket": False,
                           "so": "Wx", "tol": 0.1, "exp_args": [], "npseed": 1, "timeout": 120})
